@@ -9,6 +9,9 @@ def run(ctx, rep):
     run_contracts(ctx, rep)
     from ..rules_contract import transient_callers
     transient_callers(rep, ctx.prog("Q"))
+    if ctx.tier == "thorough":
+        from ..rules_ranged import ranged_checked
+        ranged_checked(ctx, rep)
     import os
     if os.path.exists(os.path.join(os.path.dirname(__file__), '..', '..', 'reviewed', 'ranged.tsv')):
         run_e2(ctx, rep, floor=500)
